@@ -261,14 +261,11 @@ func (e *Exec) unindexableAfterRepair() []int {
 	var held []Flat
 	for _, d := range ents {
 		name := d.Name()
-		pre := name
-		if i := strings.IndexByte(name, '.'); i >= 0 {
-			pre = name[:i]
-		}
+		pre, _ := uuidPart(name)
 		if name == sod.SchemaFilename || !uuidNameRe.MatchString(pre) {
 			continue
 		}
-		data, rerr := readMaybeGz(filepath.Join(dir, name))
+		data, rerr := readMaybeGz(filepath.Join(dir, name), e.diskCompress())
 		var r shape.Rec
 		if rerr == nil {
 			rerr = json.NewDecoder(strings.NewReader(string(data))).Decode(&r)
@@ -317,10 +314,7 @@ func (e *Exec) setsDiffer() int {
 	}
 	onDisk := map[string]bool{}
 	for _, d := range ents {
-		name := d.Name()
-		if i := strings.IndexByte(name, '.'); i >= 0 {
-			name = name[:i]
-		}
+		name, _ := uuidPart(d.Name())
 		if uuidNameRe.MatchString(name) {
 			onDisk[name] = true
 		}
@@ -718,10 +712,7 @@ func (e *Exec) step(t []string) {
 			var us []string
 			for _, ev := range vshim.StopRecording() {
 				if ev.Kind == "remove" {
-					name := filepath.Base(ev.Path)
-					if i := strings.IndexByte(name, '.'); i >= 0 {
-						name = name[:i]
-					}
+					name, _ := uuidPart(filepath.Base(ev.Path))
 					us = append(us, strconv.Itoa(e.unum(name)))
 				}
 			}
@@ -916,10 +907,7 @@ func (e *Exec) step(t []string) {
 		}
 		for _, ev := range vshim.StopRecording() {
 			if ev.Kind == "open" && filepath.Base(ev.Path) != sod.SchemaFilename {
-				name := filepath.Base(ev.Path)
-				if i := strings.IndexByte(name, '.'); i >= 0 {
-					name = name[:i]
-				}
+				name, _ := uuidPart(filepath.Base(ev.Path))
 				if n, ok := e.un[name]; ok && !seen[name] {
 					seen[name] = true
 					opened = append(opened, strconv.Itoa(n))
@@ -1189,14 +1177,15 @@ func (e *Exec) diskCompress() bool {
 	return m.Compress
 }
 
-func readMaybeGz(path string) ([]byte, error) {
+// readMaybeGz: object files are compressed exactly when the collection says so (whatever their name ends with)
+func readMaybeGz(path string, gz bool) ([]byte, error) {
 	f, err := os.Open(path)
 	if err != nil {
 		return nil, err
 	}
 	defer f.Close()
 	var r io.Reader = f
-	if strings.HasSuffix(path, ".gz") {
+	if gz {
 		if r, err = gzip.NewReader(f); err != nil {
 			return nil, err
 		}
@@ -1204,13 +1193,18 @@ func readMaybeGz(path string) ([]byte, error) {
 	return io.ReadAll(r)
 }
 
+// uuidPart: what the name of a directory entry is listed under: its first 36 bytes (a uuid is 36 bytes
+// long, the extension - with or without a dot - is what follows); shorter names are taken whole
+func uuidPart(name string) (pre, suf string) {
+	if len(name) >= 36 {
+		return name[:36], name[36:]
+	}
+	return name, ""
+}
+
 // canonName: U<n><suffix> for names whose prefix is a known uuid, else x<hex of name>
 func (e *Exec) canonName(name string) string {
-	pre := name
-	suf := ""
-	if i := strings.IndexByte(name, '.'); i >= 0 {
-		pre, suf = name[:i], name[i:]
-	}
+	pre, suf := uuidPart(name)
 	if n, ok := e.un[pre]; ok {
 		return fmt.Sprintf("U%d%s", n, suf)
 	}
@@ -1249,7 +1243,7 @@ func (e *Exec) fsdump() {
 		if f.name == sod.SchemaFilename || !strings.HasPrefix(f.canon, "U") {
 			continue
 		}
-		data, err := readMaybeGz(filepath.Join(dir, f.name))
+		data, err := readMaybeGz(filepath.Join(dir, f.name), e.diskCompress())
 		var r shape.Rec
 		if err == nil {
 			dec := json.NewDecoder(strings.NewReader(string(data)))
@@ -1259,10 +1253,7 @@ func (e *Exec) fsdump() {
 			e.emit("s file %s BAD", f.canon)
 			continue
 		}
-		pre := f.name
-		if i := strings.IndexByte(f.name, '.'); i >= 0 {
-			pre = f.name[:i]
-		}
+		pre, _ := uuidPart(f.name)
 		e.emit("s file %s %s", f.canon, recToFlat(&r, e.unum(pre)))
 	}
 	e.schemaDump(filepath.Join(dir, sod.SchemaFilename))
@@ -1430,7 +1421,7 @@ func (e *Exec) addFile(f Flat) string {
 		}
 	}
 	path := filepath.Join(e.colDir(), e.fileName(f.U))
-	if strings.HasSuffix(path, ".gz") {
+	if e.diskCompress() {
 		var sb strings.Builder
 		zw := gzip.NewWriter(&sb)
 		zw.Write(data)
